@@ -243,6 +243,38 @@ func classOf(note string) string {
 
 func runSeed(base, idx int64) int64 { return base*1000000000 + idx }
 
+// profileOf: the generator profile of a run. Every fourth run of a sweep takes its scenario from the profile of
+// another property (those listed in cross[prop]): the property is then judged in contexts that were built to
+// stress something else. VERIF_PROFILE forces one profile (development aid).
+func profileOf(prop string, idx int64) string {
+	if p := os.Getenv("VERIF_PROFILE"); p != "" {
+		return p
+	}
+	if others := cross[prop]; len(others) > 0 && idx%4 == 3 && idx < gen.ColdIndex0 {
+		return others[int(idx/4)%len(others)]
+	}
+	return prop
+}
+
+// Which profiles a property's oracle is also run over. Left out: C04's profile everywhere but under C04's own
+// oracle (its arguments are deliberately outside every accepted domain), and for C08 every profile whose network
+// misbehaves (C08 quantifies over controllers that answer validly and in time). C10/C11 only where the other
+// profile has listeners / discovery calls at all.
+var cross = map[string][]string{
+	"C01": {"C02", "C03", "C06", "C07", "C08", "C09", "C10", "C11", "C13", "C17"},
+	"C02": {"C01", "C03", "C06", "C07", "C08", "C09", "C11", "C13", "C17"},
+	"C03": {"C01", "C02", "C06", "C07", "C08", "C09", "C11", "C13", "C17"},
+	"C04": {"C01", "C02", "C03", "C06", "C07", "C08", "C09", "C10", "C11", "C13", "C17"},
+	"C06": {"C01", "C02", "C03", "C07", "C08", "C09", "C11", "C13", "C17"},
+	"C07": {"C01", "C02", "C03", "C06", "C08", "C09", "C13", "C17"},
+	"C08": {"C10", "C11", "C17"},
+	"C09": {"C01", "C02", "C03", "C06", "C07", "C08", "C10", "C11", "C13", "C17"},
+	"C10": {"C08", "C09", "C13", "C17"},
+	"C11": {"C01", "C06", "C08", "C09", "C17"},
+	"C13": {"C01", "C02", "C03", "C06", "C07", "C08", "C09", "C10", "C11", "C17"},
+	"C17": {"C01", "C02", "C03", "C06", "C07", "C08", "C09", "C10", "C11", "C13"},
+}
+
 func TestWorker(t *testing.T) {
 	prop := os.Getenv("VERIF_PROP")
 	if prop == "" {
@@ -313,7 +345,8 @@ func TestWorker(t *testing.T) {
 		if progress != "" {
 			os.WriteFile(progress, []byte(fmt.Sprintf("%d %d\n", idx, seed)), 0o644)
 		}
-		sc := gen.Generate(prop, seed)
+		profile := profileOf(prop, idx)
+		sc := gen.Generate(profile, seed)
 		res := engine.Run(t, sc)
 		vs := oracle.Check(prop, sc, res)
 
@@ -337,7 +370,7 @@ func TestWorker(t *testing.T) {
 		}
 
 		if detEvery > 0 && i%detEvery == 0 {
-			sc2 := gen.Generate(prop, seed)
+			sc2 := gen.Generate(profile, seed)
 			res2 := engine.Run(t, sc2)
 			sum.DetChecked++
 			if res2.Hash != res.Hash {
@@ -357,7 +390,7 @@ func TestWorker(t *testing.T) {
 			// it by replaying the record in a fresh process)
 			// a violation is a property of (scenario, schedule): it must show again when the very same run is
 			// repeated; what does not is counted and not reported (the race detector reports once per process)
-			sc2 := gen.Generate(prop, seed)
+			sc2 := gen.Generate(profile, seed)
 			res2 := engine.Run(t, sc2)
 			vs2 := oracle.Check(prop, sc2, res2)
 			var keep []oracle.Violation
